@@ -51,6 +51,8 @@ pub use crate::connection::{
 };
 #[cfg(feature = "qlog")]
 pub use connection::qlog::QlogStream;
+#[cfg(feature = "verif-probe")]
+pub use connection::VerifProbe;
 
 #[cfg(feature = "rustls")]
 pub use rustls;
